@@ -3,14 +3,9 @@
 package connector
 
 import (
-	"bytes"
 	"context"
 	"fmt"
-	"reflect"
-	"strings"
 	"testing"
-
-	"go.uber.org/multierr"
 
 	"go.opentelemetry.io/collector/consumer"
 	"go.opentelemetry.io/collector/pdata/pcommon"
@@ -20,30 +15,7 @@ import (
 	"go.opentelemetry.io/collector/pipeline"
 )
 
-// C06 at the connector routers: Router.Consumer(pipelineIDs...) hands one payload to the selected pipelines. It must behave
-// exactly like the fan-out over the selected pipelines' first consumers in the order given — also for ONE selected pipeline
-// (a mutating pipeline selected alone must not be handed read-only shared data). Model: c06-fan (same as the fan-out harness).
-
-type c06rSig struct {
-	name    string
-	newData func() any
-	marshal func(any) []byte
-	attrs   func(any) pcommon.Map
-	markRO  func(any)
-	isRO    func(any) bool
-	// route over `all` consumers (capabilities all[i]) selecting `sel` (indices into all, in order)
-	route func(all []bool, sel []int, cb func(i int, d any) error) (consume func(any) error, err error)
-}
-
-func c06rPtr(d any) uintptr { return reflect.ValueOf(d).Field(0).Pointer() }
-
-func c06rIDs(sig pipeline.Signal, n int) []pipeline.ID {
-	ids := make([]pipeline.ID, n)
-	for i := range ids {
-		ids[i] = pipeline.NewIDWithName(sig, fmt.Sprintf("p%d", i))
-	}
-	return ids
-}
+var _ = fmt.Sprint
 
 func c06rSigs() []c06rSig {
 	return []c06rSig{
@@ -60,7 +32,7 @@ func c06rSigs() []c06rSig {
 			attrs:   func(d any) pcommon.Map { return d.(plog.Logs).ResourceLogs().At(0).Resource().Attributes() },
 			markRO:  func(d any) { d.(plog.Logs).MarkReadOnly() },
 			isRO:    func(d any) bool { return d.(plog.Logs).IsReadOnly() },
-			route: func(all []bool, sel []int, cb func(int, any) error) (func(any) error, error) {
+			route: func(all []bool, sel []int, cb func(int, any) error) (func(any) error, bool, error) {
 				ids := c06rIDs(pipeline.SignalLogs, len(all))
 				cm := map[pipeline.ID]consumer.Logs{}
 				for i, m := range all {
@@ -74,9 +46,9 @@ func c06rSigs() []c06rSig {
 				}
 				c, err := NewLogsRouter(cm).Consumer(s...)
 				if err != nil {
-					return nil, err
+					return nil, false, err
 				}
-				return func(d any) error { return c.ConsumeLogs(context.Background(), d.(plog.Logs)) }, nil
+				return func(d any) error { return c.ConsumeLogs(context.Background(), d.(plog.Logs)) }, c.Capabilities().MutatesData, nil
 			},
 		},
 		{
@@ -92,7 +64,7 @@ func c06rSigs() []c06rSig {
 			attrs:   func(d any) pcommon.Map { return d.(pmetric.Metrics).ResourceMetrics().At(0).Resource().Attributes() },
 			markRO:  func(d any) { d.(pmetric.Metrics).MarkReadOnly() },
 			isRO:    func(d any) bool { return d.(pmetric.Metrics).IsReadOnly() },
-			route: func(all []bool, sel []int, cb func(int, any) error) (func(any) error, error) {
+			route: func(all []bool, sel []int, cb func(int, any) error) (func(any) error, bool, error) {
 				ids := c06rIDs(pipeline.SignalMetrics, len(all))
 				cm := map[pipeline.ID]consumer.Metrics{}
 				for i, m := range all {
@@ -106,9 +78,9 @@ func c06rSigs() []c06rSig {
 				}
 				c, err := NewMetricsRouter(cm).Consumer(s...)
 				if err != nil {
-					return nil, err
+					return nil, false, err
 				}
-				return func(d any) error { return c.ConsumeMetrics(context.Background(), d.(pmetric.Metrics)) }, nil
+				return func(d any) error { return c.ConsumeMetrics(context.Background(), d.(pmetric.Metrics)) }, c.Capabilities().MutatesData, nil
 			},
 		},
 		{
@@ -124,7 +96,7 @@ func c06rSigs() []c06rSig {
 			attrs:   func(d any) pcommon.Map { return d.(ptrace.Traces).ResourceSpans().At(0).Resource().Attributes() },
 			markRO:  func(d any) { d.(ptrace.Traces).MarkReadOnly() },
 			isRO:    func(d any) bool { return d.(ptrace.Traces).IsReadOnly() },
-			route: func(all []bool, sel []int, cb func(int, any) error) (func(any) error, error) {
+			route: func(all []bool, sel []int, cb func(int, any) error) (func(any) error, bool, error) {
 				ids := c06rIDs(pipeline.SignalTraces, len(all))
 				cm := map[pipeline.ID]consumer.Traces{}
 				for i, m := range all {
@@ -138,172 +110,13 @@ func c06rSigs() []c06rSig {
 				}
 				c, err := NewTracesRouter(cm).Consumer(s...)
 				if err != nil {
-					return nil, err
+					return nil, false, err
 				}
-				return func(d any) error { return c.ConsumeTraces(context.Background(), d.(ptrace.Traces)) }, nil
+				return func(d any) error { return c.ConsumeTraces(context.Background(), d.(ptrace.Traces)) }, c.Capabilities().MutatesData, nil
 			},
 		},
 	}
 }
 
-func c06rBits(bs []bool) string {
-	var sb strings.Builder
-	for _, b := range bs {
-		if b {
-			sb.WriteByte('1')
-		} else {
-			sb.WriteByte('0')
-		}
-	}
-	if sb.Len() == 0 {
-		return "-"
-	}
-	return sb.String()
-}
 
-func c06rTry(m pcommon.Map, tag string) (panicked bool) {
-	defer func() {
-		if recover() != nil {
-			panicked = true
-		}
-	}()
-	m.PutStr(tag, "1")
-	return false
-}
-
-// one routed delivery; consumers are renumbered 0..len(sel)-1 in selection order so that the fan-out model applies as is
-func c06rRun(out *vOut, sg c06rSig, all []bool, sel []int, inputRO bool) {
-	caps := make([]bool, len(sel))
-	pos := map[int]int{}
-	for k, i := range sel {
-		caps[k] = all[i]
-		pos[i] = k
-	}
-	zero := c06rBits(make([]bool, len(sel)))
-	ones := strings.ReplaceAll(zero, "0", "1")
-	out.Linef("op fan sig=%s caps=%s ro=%d fail=%s syncw=%s undecl=-1 route=%d/%d", sg.name, c06rBits(caps), vB(inputRO), zero, ones, len(sel), len(all))
-	data := sg.newData()
-	sent := sg.marshal(data)
-	if inputRO {
-		sg.markRO(data)
-	}
-	origPtr := c06rPtr(data)
-	clones := map[uintptr]int{}
-	held := make([]any, len(sel))
-	consume, err := sg.route(all, sel, func(i int, d any) error {
-		k, ok := pos[i]
-		if !ok {
-			out.Linef("viol sig=C06/router/unselected-pipeline-invoked pipeline=%d signal=%s", i, sg.name)
-			return nil
-		}
-		held[k] = d
-		obj := "o"
-		if p := c06rPtr(d); p != origPtr {
-			c, seen := clones[p]
-			if !seen {
-				c = len(clones)
-				clones[p] = c
-			}
-			obj = fmt.Sprintf("c%d", c)
-		}
-		eq := bytes.Equal(sg.marshal(d), sent)
-		panicked := false
-		if caps[k] {
-			panicked = c06rTry(sg.attrs(d), fmt.Sprintf("w%d", k))
-			if panicked {
-				out.Linef("viol sig=C06/router/declared-mutator-got-readonly-data pipeline=%d selected=%d signal=%s", i, len(sel), sg.name)
-			}
-		}
-		out.Linef("obs call %d %s ro=%d eq=%d panic=%d", k, obj, vB(sg.isRO(d)), vB(eq), vB(panicked))
-		return nil
-	})
-	if err != nil {
-		out.Linef("obs route-error")
-		return
-	}
-	// the router's consumer has no Capabilities we can compare with the fan-out's for a single unwrapped consumer; print the model's
-	// value from what the real fan-out would advertise: mutable non-empty and read-only empty
-	allMut, any := true, false
-	for _, c := range caps {
-		any = true
-		allMut = allMut && c
-	}
-	out.Linef("obs cap %d", vB(any && allMut))
-	e := consume(data)
-	out.Linef("obs err %d", len(multierr.Errors(e)))
-	for k, m := range caps {
-		if held[k] == nil {
-			out.Linef("obs after %d missing", k)
-			continue
-		}
-		if m {
-			c06rTry(sg.attrs(held[k]), fmt.Sprintf("a%d", k))
-			got := ""
-			sg.attrs(held[k]).Range(func(key string, _ pcommon.Value) bool {
-				if key != "k" {
-					got += key + ","
-				}
-				return true
-			})
-			out.Linef("obs after %d excl=%d", k, vB(strings.Count(got, ",") == 2 && strings.Contains(got, fmt.Sprintf("a%d,", k)) && strings.Contains(got, fmt.Sprintf("w%d,", k))))
-		} else {
-			out.Linef("obs after %d eq=%d", k, vB(bytes.Equal(sg.marshal(held[k]), sent)))
-		}
-	}
-}
-
-func TestVerifC06Router(t *testing.T) {
-	out := vOpen(t)
-	defer out.Close()
-	out.Linef("model c06-fan 1")
-	sigs := c06rSigs()
-	n := vN(300)
-	for _, c := range vCases(n) {
-		rnd := vRand(c)
-		out.Linef("case %d", c)
-		k := 1 + rnd.IntN(5)
-		all := make([]bool, k)
-		for i := range all {
-			all[i] = rnd.IntN(2) == 0
-		}
-		// a selection without repeats, biased towards small selections (1 pipeline is the interesting corner)
-		m := 1 + rnd.IntN(k)
-		if rnd.IntN(2) == 0 {
-			m = 1
-		}
-		perm := rnd.Perm(k)
-		sel := perm[:m]
-		inputRO := rnd.IntN(2) == 0
-		for _, sg := range sigs {
-			c06rRun(out, sg, all, sel, inputRO)
-		}
-		if m == 1 && all[sel[0]] && inputRO {
-			out.Linef("stat single_mutating_readonly 1")
-		}
-		out.Linef("nt")
-		out.Linef("stat selected %d", m)
-		out.Linef("end")
-		out.Flush()
-	}
-	// exhaustive: every capability vector of <= 3 pipelines x every single selection x input mode
-	c := 1000000
-	for k := 1; k <= 3; k++ {
-		for mask := 0; mask < 1<<k; mask++ {
-			all := make([]bool, k)
-			for i := range all {
-				all[i] = mask&(1<<i) != 0
-			}
-			for s := 0; s < k; s++ {
-				for _, ro := range []bool{false, true} {
-					out.Linef("case %d", c)
-					c++
-					for _, sg := range sigs {
-						c06rRun(out, sg, all, []int{s}, ro)
-					}
-					out.Linef("nt")
-					out.Linef("end")
-				}
-			}
-		}
-	}
-}
+func TestVerifC06Router(t *testing.T) { c06rMain(t, c06rSigs()) }
